@@ -126,3 +126,39 @@ func init() {
 		return map[string]any{"lines": lines, "str": str, "vstrs": vstrs, "is_identifier": t.IsIdentifierType()}
 	}
 }
+
+func init() {
+	// parent_lookup: getParentMethodT on a given inheritance map and method table; the answer is the class that
+	// defines the method found ("" when none).  Methods are defined under scratch names and removed afterwards.
+	ops["parent_lookup"] = func(r req) any {
+		defer setWorld(r)()
+		var defs []struct {
+			Frame  string `json:"frame"`
+			Class  string `json:"class"`
+			Static bool   `json:"static"`
+		}
+		json.Unmarshal(r["defs"], &defs)
+		method := "vq_lookup_probe"
+		classes := map[string]bool{}
+		for _, d := range defs {
+			t := base.MakeMethod(d.Frame, method, *base.MakeAnyInt(), []string{})
+			t.DefinedFrame, t.DefinedClass = d.Frame, d.Class
+			if d.Static {
+				base.SetClassMethodT(d.Frame, d.Class, t, false, "h.rb", 1)
+			} else {
+				base.SetMethodT(d.Frame, d.Class, t, false, "h.rb", 1)
+			}
+			classes[d.Class] = true
+		}
+		defer func() {
+			for c := range classes {
+				base.VerifDeleteClass(c)
+			}
+		}()
+		t := base.VerifParentMethod(r.str("frame"), r.str("class"), method, false, r.boolean("static"))
+		if t == nil {
+			return map[string]any{"found": false}
+		}
+		return map[string]any{"found": true, "frame": t.DefinedFrame, "class": t.DefinedClass}
+	}
+}
